@@ -109,16 +109,21 @@ func (m *C05) AfterMsg(w *eng.World, st *eng.MsgStep) {
 			w.Violation("C05", "take-unknown-basket", "accepted Take from unknown basket %s", msg.BasketDenom)
 			break
 		}
-		amt, ok := new(big.Int).SetString(msg.Amount, 10)
-		if !ok {
-			w.Violation("C05", "take-amount-not-integer", "accepted Take with amount %q", msg.Amount)
+		// the amount is the message string read as an integer; a leading "0", "0x", "0b" is read
+		// by the chain's integer parser as a base prefix - whichever reading the chain uses, the
+		// tokens burnt, the owner's debit and the credits released must all be that one amount
+		burnt := new(big.Int).Sub(st.Pre.SupplyOf(b.BasketDenom), st.Post.SupplyOf(b.BasketDenom))
+		dec, okDec := new(big.Int).SetString(msg.Amount, 10)
+		b0, okB0 := new(big.Int).SetString(msg.Amount, 0)
+		if !(okDec && dec.Cmp(burnt) == 0) && !(okB0 && b0.Cmp(burnt) == 0) {
+			w.Violation("C05", "take-burn-wrong", "Take of %q tokens burnt %s", msg.Amount, burnt)
 			break
 		}
-		burnt := new(big.Int).Sub(st.Pre.SupplyOf(b.BasketDenom), st.Post.SupplyOf(b.BasketDenom))
+		amt := burnt
 		owner, _ := sdk.AccAddressFromBech32(msg.Owner)
 		paid := new(big.Int).Sub(st.Pre.BankOf(owner.String(), b.BasketDenom), st.Post.BankOf(owner.String(), b.BasketDenom))
-		if burnt.Cmp(amt) != 0 || paid.Cmp(amt) != 0 {
-			w.Violation("C05", "take-burn-wrong", "Take of %s tokens burnt %s and debited the owner %s", amt, burnt, paid)
+		if paid.Cmp(amt) != 0 {
+			w.Violation("C05", "take-burn-wrong", "Take of %q tokens burnt %s and debited the owner %s", msg.Amount, burnt, paid)
 		}
 		// credits released = decrease of the basket's holdings
 		pre, post := zero(), zero()
